@@ -396,6 +396,11 @@ class Program:
                     tid = c.get("rid") or c["id"]
                     if tid in self.fns:
                         ci.setdefault(c.get("rfn") or c["fn"], set()).add(tid)
+            # functions that are only ever used as values (`.map(SpaceProps::total_volume)`) are never the callee of a call terminator: their own
+            # path names them (the form a function item carries)
+            for fn in self.fns.values():
+                if fn.kind in ("fn", "assocfn") and fn.root == fn.id and fn.path not in ci:
+                    ci[fn.path] = {fn.id}
             self._callee_index = ci
         return self._callee_index
 
